@@ -236,8 +236,12 @@ class World:
                 w_ = w_ * (events['atmo'] + events['astro'])
             return w_ / np.sum(w_)
 
+        mean_factor = float(mcv.get('mean_factor', 0.5))
+
         def mean(dataset, data, events):
-            return float(len(events)) / 2.0
+            # expected number of background events: a rate x live-time style number, in general not an integer
+            return float(len(events)) * mean_factor
+        self.mean_func = mean
         self.mc_method = MCDataSamplingBkgGenMethod(
             get_event_prob_func=prob, get_mean_func=mean,
             data_scrambler=None if mcv['scr'] is None else DataScrambler(self.scr[mcv['scr']]()),
@@ -364,10 +368,12 @@ def gen_spec(rng):
     mscr = rng.choice([None, 'uniform', 'i3time', 'uniform_range', 'seasonal'])
     if n_exp == 0 and mscr == 'seasonal':
         mscr = 'i3time'      # the seasonal method divides by the number of experimental events when it is constructed
-    return {'data_seed': rng.randrange(10**6), 'n_exp': n_exp, 'n_mc': rng.choice([2, 4, 9, 20]),
+    return {'data_seed': rng.randrange(10**6), 'n_exp': n_exp, 'n_mc': rng.choice([2, 4, 9, 20, 20, 60, 150]),
             'narrow': rng.random() < 0.6, 'extra': True, 'ra_range': gen_ra_range(rng), 'exp_lacks': lacks,
             'mc_variant': {'scr': mscr, 'presel': rng.random() < 0.4,
-                           'keep': gen_keep(rng)},
+                           'keep': gen_keep(rng),
+                           # integer, half-integer and generic (rate x live time) expected means
+                           'mean_factor': rng.choice([0.5, 1.0, 0.6173, 1.0 / 7.0, 0.873, 0.31, 2.31])},
             'time32': rng.random() < 0.3,
             'trial': {'index': index, 'pre': rng.random() < 0.5,
                       'stat': rng.random() < 0.7, 'sel': rng.choice([False, False, True, True, 'all']),
